@@ -94,12 +94,67 @@ fn wire_carrier_case(g: &mut Gen, ctx: &mut Ctx) -> CaseResult {
     }
 }
 
+/// Whatever the decoder accepts (messages with one planted fault, most of which it must reject),
+/// the additional data carries the *received* protected bytes, read off the wire with the
+/// harness' own reader.
+fn accepted_any_case(g: &mut Gen, ctx: &mut Ctx) -> CaseResult {
+    let kind = *g.pick(&[Kind::Encrypt, Kind::Encrypt0, Kind::Recipient]);
+    let item = gen_msg(g, kind, &mut Faults::one(), 1);
+    let o = if g.bool() { StyleOpts::NONE } else { StyleOpts::ALL };
+    let (bytes, _) = styled(&item, g, o);
+    let slots = match wire_slots(&bytes) {
+        Some(s) => s,
+        None => return Ok(()),
+    };
+    let (w, ct) = match (slot_bytes(&slots, 0), slot_bytes(&slots, 2)) {
+        (Some(w), Some(c)) => (w, c),
+        _ => return Ok(()),
+    };
+    let aad = g.small_bytes();
+    let mut seen = None;
+    let f = |c: &[u8], a: &[u8]| -> Result<Vec<u8>, u8> {
+        seen = Some((c.to_vec(), a.to_vec()));
+        Ok(vec![])
+    };
+    let cname = match kind {
+        Kind::Encrypt => match CoseEncrypt::from_slice(&bytes) {
+            Ok(v) => {
+                let _ = v.decrypt(&aad, f);
+                "Encrypt"
+            }
+            Err(_) => return Ok(()),
+        },
+        Kind::Encrypt0 => match CoseEncrypt0::from_slice(&bytes) {
+            Ok(v) => {
+                let _ = v.decrypt(&aad, f);
+                "Encrypt0"
+            }
+            Err(_) => return Ok(()),
+        },
+        _ => match CoseRecipient::from_slice(&bytes) {
+            Ok(v) => {
+                let _ = v.decrypt(EncryptionContext::EncRecipient, &aad, f);
+                "Enc_Recipient"
+            }
+            Err(_) => return Ok(()),
+        },
+    };
+    ctx.classf(format!("accepted-any:{}", kind.name()));
+    ctx.nontrivial(hash_bytes(&[&b"a"[..], &bytes, &aad].concat()));
+    let (c, a) = seen.ok_or("decrypt did not call the cipher")?;
+    ensure!(c == ct, "accepted {}: decrypt handed over a ciphertext other than the received one", kind.name());
+    expect_eq(&format!("accepted {} ({}): decrypt", kind.name(), hex_trunc(&bytes, 60)), &a, &ref_enc_structure(cname, &w, &aad))
+}
+
 fn case(g: &mut Gen, ctx: &mut Ctx) -> CaseResult {
     if g.ratio(1, 4) {
         return wire_carrier_case(g, ctx);
     }
+    if g.ratio(1, 6) {
+        return accepted_any_case(g, ctx);
+    }
     let prot = gen_prot(g, ctx)?;
-    let aad = gen_class_bytes(g);
+    let aad = gen_aad(g, &prot.p);
     let plaintext = g.small_bytes();
     let ciphertext = g.small_bytes();
     let carrier = g.below(3); // 0 Encrypt, 1 Encrypt0, 2 Recipient
